@@ -313,8 +313,9 @@ class MetaParserModel:
                 inner = [c for c in conds if _is_after(c, g, e)]
                 if rk == 'ok_false' and inner:
                     ce = es(inner[-1]['cond']).replace(' ', '')
-                    if ce.startswith('!self.enable_'):
-                        g.enable = ce[len('!self.'):]
+                    sc_ = switch_of_cond(ce, bool_fields_of_self(self.cx, self.fw.fn))
+                    if sc_ is not None and sc_[1]:
+                        g.enable = sc_[0]
                         seq.append(('enable', e.seq))
                         continue
                 if isinstance(rk, tuple) and rk[1].endswith('parameter_reset') and inner:
@@ -362,3 +363,28 @@ class MetaParserModel:
 
 def _is_after(c, g, e):
     return True
+
+
+def bool_fields_of_self(cx, fn):
+    """names of the `bool` fields of the struct `fn` is a method of (the acceptance switches of an attribute builder)"""
+    out = set()
+    if fn.self_ty is None:
+        return out
+    for (mp, name), it in cx.crate.types.items():
+        if name == fn.self_ty and tuple(mp) == tuple(fn.module.path) and it['k'] == 'Struct':
+            for f in it['fields']['fields']:
+                if f.get('name') and ty_s(f['ty']).strip() == 'bool':
+                    out.add(f['name'])
+    return out
+
+
+def switch_of_cond(text, switches):
+    """`self.<switch>` / `!self.<switch>` -> (switch name, negated) if <switch> is a bool field of the builder; else None"""
+    t = text.replace(' ', '')
+    neg = False
+    while t.startswith('!'):
+        neg = not neg
+        t = t[1:]
+    if t.startswith('self.') and t[5:] in switches:
+        return t[5:], neg
+    return None
